@@ -29,6 +29,8 @@ pub struct Cfg {
     pub tracked_arms: Vec<(String, String, String)>,     // scrutinee text, arm pattern prefix, condition
     pub tracked_after: Vec<(String, String)>,            // condition text -> event emitted after the `if` (its then-branch diverges)
     pub exit_markers: Vec<(String, String)>,             // "Type::fn" -> event emitted at successful exits
+    pub fmtlocks: Vec<(String, String)>,                 // type whose Debug/Display impl takes a lock -> lock (formatting `self` of that type in a macro = acquire + release)
+    pub carriers: Vec<(String, String, String, String, String)>, // source file, struct, field name ("*" = any, "0" = tuple field), required type text ("=T" exact), label
 }
 
 pub fn load_cfg(path: &str) -> Result<Cfg, String> {
@@ -59,6 +61,8 @@ pub fn load_cfg(path: &str) -> Result<Cfg, String> {
             "trackedarm" if p.len() >= 4 => c.tracked_arms.push((p[1].replace("␣", " "), p[2].into(), p[3..].join(" "))),
             "trackedafter" if p.len() == 3 => c.tracked_after.push((p[1].replace("␣", " "), p[2].into())),
             "exitmarker" if p.len() == 3 => c.exit_markers.push((p[1].into(), p[2].into())),
+            "fmtlock" if p.len() == 3 => c.fmtlocks.push((p[1].into(), p[2].into())),
+            "carrier" if p.len() == 6 => c.carriers.push((p[1].into(), p[2].into(), p[3].into(), p[4].into(), p[5].into())),
             _ => return Err(err()),
         }
     }
@@ -106,7 +110,16 @@ pub struct Sk<'a> {
     local_fns: &'a BTreeMap<String, Vec<(String, bool)>>,
     /// helper functions of the same file that are called but not registered: skeletonised on the fly (no contract)
     pub auto_requests: Vec<(String, String)>,
+    /// inline frames: a helper of the same file that is not under contract is expanded at its call site
+    inl: Vec<InlFrame>,
+    inline_stack: Vec<String>,
+    inline_failed: bool,
+    ret_count: usize,
+    pub inlined: Vec<String>,
 }
+
+#[derive(Clone)]
+struct InlFrame { done: String, ret: String, scope_base: usize, temps_base: usize, loop_base: usize, ret_result: bool }
 
 fn last_seg(p: &syn::Path) -> String {
     p.segments.last().map(|s| s.ident.to_string()).unwrap_or_default()
@@ -157,7 +170,8 @@ impl<'a> Sk<'a> {
     }
     /// release everything down to (and including) scope index `down_to`
     fn cleanup(&mut self, down_to: usize) {
-        let temps: Vec<String> = self.temps.iter().rev().flat_map(|v| v.iter().rev().cloned()).collect();
+        let tb = self.inl.last().map(|f| f.temps_base).unwrap_or(0);
+        let temps: Vec<String> = self.temps[tb.min(self.temps.len())..].iter().rev().flat_map(|v| v.iter().rev().cloned()).collect();
         for l in temps {
             self.rel_lock(&l);
         }
@@ -169,6 +183,20 @@ impl<'a> Sk<'a> {
         }
     }
     fn do_return(&mut self, av: &AV) {
+        self.ret_count += 1;
+        if let Some(fr) = self.inl.last().cloned() {
+            // early return of an inlined helper: release what the helper holds, record the result, skip the rest
+            self.cleanup(fr.scope_base);
+            if fr.ret_result {
+                let v = match av { AV::Res(v) => v.clone(), _ => "nondet()".to_string() };
+                self.emit(&format!("{} = {};", fr.ret, v));
+            }
+            self.emit(&format!("{} = true;", fr.done));
+            if self.loop_scope_depth.len() > fr.loop_base {
+                self.emit("break;");
+            }
+            return;
+        }
         self.cleanup(0);
         if let Some(ds) = self.drop_self.clone() {
             self.emit(&format!("{}(w);", ds));
@@ -268,6 +296,9 @@ impl<'a> Sk<'a> {
             Some(o) => cands.iter().find(|(t, _)| t == o).cloned().or_else(|| if cands.len() == 1 { Some(cands[0].clone()) } else { None }),
             None => if cands.len() == 1 { Some(cands[0].clone()) } else { cands.iter().find(|(t, _)| t.is_empty()).cloned() },
         }?;
+        if let Some(av) = self.try_inline(&pick.0, name, pick.1) {
+            return Some(av);
+        }
         let skname = if pick.0.is_empty() { format!("sk_auto_{}", name) } else { format!("sk_auto_{}_{}", pick.0, name) };
         if !self.auto_requests.iter().any(|(t, n)| *t == pick.0 && n == name) {
             self.auto_requests.push((pick.0.clone(), name.to_string()));
@@ -360,6 +391,9 @@ impl<'a> Sk<'a> {
                 AV::None
             }
             E::Lit(_) | E::Macro(_) | E::Continue(_) | E::Infer(_) | E::Const(_) | E::Verbatim(_) => {
+                if let E::Macro(m) = e {
+                    self.macro_fmt_locks(&m.mac);
+                }
                 if let E::Continue(_) = e {
                     let d = *self.loop_scope_depth.last().unwrap_or(&0);
                     // release guards of scopes opened inside the loop body
@@ -472,7 +506,18 @@ impl<'a> Sk<'a> {
         let g = format!("wl{}", self.loop_counter);
         self.emit(&format!("let ghost {} = *w;", g));
         let inv = self.loop_invs.get(&self.loop_counter).cloned().unwrap_or_else(|| format!("invariant same({}, *w),", g));
+        if let Some(fr) = self.inl.last() {
+            // a `return` inside an inlined helper's loop leaves the loop by `break` with the done flag set
+            return format!("invariant_except_break same({}, *w),\nensures {} || same({}, *w),", g, fr.done, g);
+        }
         inv
+    }
+    fn after_loop(&mut self, rc0: usize) {
+        if let Some(fr) = self.inl.last().cloned() {
+            if self.ret_count > rc0 && self.loop_scope_depth.len() > fr.loop_base {
+                self.emit(&format!("if {} {{ break; }}", fr.done));
+            }
+        }
     }
 
     fn loop_body(&mut self, body: &syn::Block, cond: Option<&syn::Expr>) {
@@ -491,10 +536,12 @@ impl<'a> Sk<'a> {
         }
         self.emit("if nondet() { break; }");
         self.loop_scope_depth.push(self.scopes.len());
+        let rc0 = self.ret_count;
         self.block(body);
         self.loop_scope_depth.pop();
         self.ind -= 1;
         self.emit("}");
+        self.after_loop(rc0);
     }
     fn loop_body_plain(&mut self, body: &syn::Block) {
         let inv = self.loop_header();
@@ -505,19 +552,42 @@ impl<'a> Sk<'a> {
         self.emit("{");
         self.ind += 1;
         self.loop_scope_depth.push(self.scopes.len());
+        let rc0 = self.ret_count;
         self.block(body);
         self.loop_scope_depth.pop();
         self.ind -= 1;
         self.emit("}");
+        self.after_loop(rc0);
     }
 
     fn tracked_cond(&self, t: &str) -> Option<String> {
+        let (tn, tcore) = match t.strip_prefix('!') { Some(c) => (true, c.trim()), None => (false, t) };
         for (sub, expr) in &self.cfg.tracked {
             if t == sub.as_str() {
                 return Some(expr.clone());
             }
+            // the same condition with the opposite polarity
+            let (sn, score) = match sub.strip_prefix('!') { Some(c) => (true, c.trim()), None => (false, sub.as_str()) };
+            if tcore == score && tn != sn {
+                return Some(format!("!({})", expr));
+            }
         }
         None
+    }
+    /// a tracked condition that occurs in a form no rule covers would silently become `nondet()` and make obligations
+    /// fail for no semantic reason: report it as an extraction problem (UNDECIDED) instead
+    fn tracked_guard(&mut self, text: &str, at: usize, applied: bool) {
+        if applied {
+            return;
+        }
+        let mut cores: Vec<String> = self.cfg.tracked.iter().map(|(s, _)| s.trim_start_matches('!').trim().to_string()).collect();
+        cores.extend(self.cfg.tracked_arms.iter().map(|(s, _, _)| s.trim_start_matches('&').trim().to_string()));
+        for c in cores {
+            if !c.is_empty() && text.contains(c.as_str()) {
+                self.errors.push(format!("{}:{}: the tracked condition `{}` occurs in a form the skeleton rules do not cover (`{}`)", self.src.rel, at, c, text));
+                return;
+            }
+        }
     }
 
     fn if_expr(&mut self, i: &syn::ExprIf) -> AV {
@@ -527,17 +597,27 @@ impl<'a> Sk<'a> {
         let cav = self.expr(&i.cond);
         self.end_temps();
         let mut cond = "nondet()".to_string();
+        let mut applied = false;
         if let syn::Expr::Let(l) = &*i.cond {
             let pt = self.text(&*l.pat);
             if let AV::Res(v) = &cav {
                 if pt.starts_with("Ok") {
                     cond = v.clone();
+                    applied = true;
                 } else if pt.starts_with("Err") {
                     cond = format!("!{}", v);
+                    applied = true;
                 }
+            }
+            // `if let PAT = <tracked scrutinee>`: the arm rules of `match` apply
+            let stext = self.text(&*l.expr);
+            if let Some((_, _, c)) = self.cfg.tracked_arms.iter().find(|(s, p, _)| stext.contains(s.as_str()) && pt.starts_with(p.as_str())) {
+                cond = c.clone();
+                applied = true;
             }
         } else if let Some(t) = self.tracked_cond(&ctext) {
             cond = t;
+            applied = true;
         } else if let syn::Expr::Path(p) = Self::strip(&i.cond) {
             // a boolean local that was assigned from a tracked source keeps its nondet value: reuse the variable
             if let Some(id) = p.path.get_ident() {
@@ -546,6 +626,8 @@ impl<'a> Sk<'a> {
                 }
             }
         }
+        let at = self.line(&*i.cond);
+        self.tracked_guard(&ctext, at, applied);
         let res = self.fresh("ifv");
         self.emit(&format!("let mut {}: bool = nondet();", res));
         self.emit(&format!("if {} {{", cond));
@@ -640,6 +722,8 @@ impl<'a> Sk<'a> {
             self.end_temps();
             return AV::Res(res);
         }
+        let mat = self.line(&*m.expr);
+        self.tracked_guard(&stext, mat, false);
         let all_tagged = pats.iter().all(|p| p.starts_with("Ok") || p.starts_with("Err"));
         if let (AV::Res(v), true) = (&sav, all_tagged) {
             let oks: Vec<&syn::Arm> = m.arms.iter().zip(pats.iter()).filter(|(_, p)| p.starts_with("Ok")).map(|(a, _)| a).collect();
@@ -896,17 +980,108 @@ impl<'a> Sk<'a> {
     }
 
     fn block(&mut self, b: &syn::Block) -> AV {
+        self.block_with_tail(b, None)
+    }
+
+    /// `tail`: (result variable, returns Result) of an inlined helper whose body this block is
+    fn block_with_tail(&mut self, b: &syn::Block, tail: Option<(String, bool)>) -> AV {
         self.scopes.push(vec![]);
         let mut last = AV::None;
         let n = b.stmts.len();
+        let mut wrappers = 0usize;
+        let mut rc0 = self.ret_count;
         for (k, s) in b.stmts.iter().enumerate() {
             last = self.stmt(s, k + 1 == n);
+            if let Some(fr) = self.inl.last().cloned() {
+                if self.ret_count > rc0 && k + 1 < n {
+                    // the statement may have returned from the inlined helper: the rest runs only if it did not
+                    self.emit(&format!("if !{} {{", fr.done));
+                    self.ind += 1;
+                    wrappers += 1;
+                    rc0 = self.ret_count;
+                }
+            }
+        }
+        if let Some((ret, retres)) = &tail {
+            if matches!(last, AV::Guard(_) | AV::Dropper(_, _)) {
+                self.inline_failed = true;
+            }
+            if *retres {
+                let v = match &last { AV::Res(v) => v.clone(), _ => "nondet()".to_string() };
+                self.emit(&format!("{} = {};", ret, v));
+            }
+            last = AV::None;
+        } else if wrappers > 0 && !matches!(last, AV::None) {
+            // a value computed behind an early return of the inlined helper would escape its guard: do not inline
+            self.inline_failed = true;
         }
         let sc = self.scopes.pop().unwrap();
         for (_, b) in sc.iter().rev() {
             self.release_bound(b);
         }
+        for _ in 0..wrappers {
+            self.ind -= 1;
+            self.emit("}");
+        }
         last
+    }
+
+    /// expand a helper of the same file that is not under contract at its call site (exact, unlike a contract-less call)
+    fn try_inline(&mut self, owner: &str, name: &str, retres: bool) -> Option<AV> {
+        let key = if owner.is_empty() { name.to_string() } else { format!("{}::{}", owner, name) };
+        if self.inline_stack.contains(&key) || self.inline_stack.len() >= 4 {
+            return None;
+        }
+        let sel: Vec<String> = if owner.is_empty() { vec!["fn".into(), name.to_string()] } else { vec!["impl".into(), owner.to_string(), "fn".into(), name.to_string()] };
+        let src = self.src;
+        let found = crate::find_item(&src.file, &sel).ok()?;
+        let block: &syn::Block = match &found {
+            crate::Found::ImplFn(_, f) => &f.block,
+            crate::Found::Item(syn::Item::Fn(f)) => &*f.block,
+            _ => return None,
+        };
+        let mark = self.out.len();
+        let saved = (self.vars.clone(), self.closures.clone(), self.self_ty.clone(), self.ret_result, self.fname.clone(), self.drop_self.clone(),
+                     self.exit_marker.clone(), std::mem::take(&mut self.loop_invs), self.events, self.errors.len(), self.unknown_calls.len(),
+                     self.ret_count, self.inline_failed, self.pending_closures.len(), self.auto_requests.len(), self.inlined.len());
+        let id = self.fresh("");
+        let done = format!("vx_done{}", id);
+        let ret = format!("vx_ret{}", id);
+        self.emit(&format!("// ---- inlined: body of {} ({}:{}), a helper that is not under contract ----", key, src.rel, self.line(block)));
+        self.emit(&format!("let mut {}: bool = false;", done));
+        if retres {
+            self.emit(&format!("let mut {}: bool = true;", ret));
+        }
+        self.inl.push(InlFrame { done: done.clone(), ret: ret.clone(), scope_base: self.scopes.len(), temps_base: self.temps.len(), loop_base: self.loop_scope_depth.len(), ret_result: retres });
+        self.inline_stack.push(key.clone());
+        self.vars = BTreeMap::new();
+        self.closures = BTreeMap::new();
+        self.self_ty = owner.to_string();
+        self.ret_result = retres;
+        self.fname = format!("{}_inl{}_{}", saved.4, id, name);
+        self.drop_self = None;
+        self.exit_marker = None;
+        self.inline_failed = false;
+        self.block_with_tail(block, Some((ret.clone(), retres)));
+        self.emit(&format!("// ---- end of inlined {} ----", key));
+        self.inl.pop();
+        self.inline_stack.pop();
+        let failed = self.inline_failed;
+        self.vars = saved.0; self.closures = saved.1; self.self_ty = saved.2; self.ret_result = saved.3; self.fname = saved.4;
+        self.drop_self = saved.5; self.exit_marker = saved.6; self.loop_invs = saved.7;
+        self.inline_failed = saved.12;
+        if failed {
+            self.out.truncate(mark);
+            self.events = saved.8; self.errors.truncate(saved.9); self.unknown_calls.truncate(saved.10); self.ret_count = saved.11;
+            self.pending_closures.truncate(saved.13); self.auto_requests.truncate(saved.14); self.inlined.truncate(saved.15);
+            return None;
+        }
+        // returns of the helper are not returns of the caller
+        self.ret_count = saved.11;
+        if !self.inlined.contains(&key) {
+            self.inlined.push(key);
+        }
+        Some(if retres { AV::Res(ret) } else { AV::None })
     }
 
     fn bind_pat(&mut self, pat: &syn::Pat, av: AV) {
@@ -993,7 +1168,42 @@ impl<'a> Sk<'a> {
                     AV::None
                 }
             }
-            syn::Stmt::Macro(_) | syn::Stmt::Item(_) => AV::None,
+            syn::Stmt::Macro(m) => {
+                self.macro_fmt_locks(&m.mac);
+                AV::None
+            }
+            syn::Stmt::Item(_) => AV::None,
+        }
+    }
+
+    /// A macro (tracing / format / panic family) that formats `self` (or `*self`, `&self`) of a type whose Debug/Display
+    /// impl takes a lock acquires and releases that lock on the spot.
+    fn macro_fmt_locks(&mut self, mac: &syn::Macro) {
+        let lock = match self.cfg.fmtlocks.iter().find(|(t, _)| *t == self.self_ty) { Some((_, l)) => l.clone(), None => return };
+        fn walk(ts: proc_macro2::TokenStream, hit: &mut bool) {
+            let toks: Vec<proc_macro2::TokenTree> = ts.into_iter().collect();
+            for (i, t) in toks.iter().enumerate() {
+                match t {
+                    proc_macro2::TokenTree::Group(g) => walk(g.stream(), hit),
+                    proc_macro2::TokenTree::Ident(id) if id == "self" => {
+                        // `self` used as a whole value: not followed by `.field` / `::`
+                        let next_is_access = matches!(toks.get(i + 1), Some(proc_macro2::TokenTree::Punct(p)) if p.as_char() == '.' || p.as_char() == ':');
+                        if !next_is_access { *hit = true; }
+                    }
+                    proc_macro2::TokenTree::Literal(l) => {
+                        let t = l.to_string();
+                        if t.contains("{self") { *hit = true; }
+                    }
+                    _ => {}
+                }
+            }
+        }
+        let mut hit = false;
+        walk(mac.tokens.clone(), &mut hit);
+        if hit {
+            self.emit(&format!("// formatting `self` ({}) runs its Debug/Display impl, which takes {}", self.self_ty, lock));
+            self.acq(&lock);
+            self.rel_lock(&lock);
         }
     }
 
@@ -1003,7 +1213,7 @@ impl<'a> Sk<'a> {
             src: self.src, cfg: self.cfg, registry: self.registry, self_ty: self.self_ty.clone(), out: vec![], ind: 1,
             scopes: vec![], temps: vec![], loop_scope_depth: vec![], n: 0, ret_result: true, vars: BTreeMap::new(),
             closures: BTreeMap::new(), pending_closures: vec![], errors: vec![], events: 0, loop_invs: BTreeMap::new(),
-            loop_counter: 0, fname: name.to_string(), drop_self: None, unknown_calls: vec![], exit_marker: None, local_fns: self.local_fns, auto_requests: vec![],
+            loop_counter: 0, fname: name.to_string(), drop_self: None, unknown_calls: vec![], exit_marker: None, local_fns: self.local_fns, auto_requests: vec![], inl: vec![], inline_stack: vec![], inline_failed: false, ret_count: 0, inlined: vec![],
         };
         sub.scopes.push(vec![]);
         let av = sub.expr(&c.body);
@@ -1012,12 +1222,14 @@ impl<'a> Sk<'a> {
         self.errors.extend(sub.errors.clone());
         self.unknown_calls.extend(sub.unknown_calls.clone());
         self.auto_requests.extend(sub.auto_requests.clone());
+        self.inlined.extend(sub.inlined.clone());
         self.events += sub.events;
         sub.out.join("\n")
     }
 }
 
 pub struct SkelOut {
+    pub inlined: Vec<String>,
     pub auto_requests: Vec<(String, String)>,
     pub text: String,
     pub closures: Vec<(String, String)>,
@@ -1038,7 +1250,7 @@ pub fn skeleton_of(
     let mut sk = Sk {
         src, cfg, registry, self_ty: self_ty.to_string(), out: vec![], ind: 1, scopes: vec![], temps: vec![], loop_scope_depth: vec![], n: 0,
         ret_result, vars: BTreeMap::new(), closures: BTreeMap::new(), pending_closures: vec![], errors: vec![], events: 0, loop_invs,
-        loop_counter: 0, fname: fname.to_string(), drop_self: drop_self.clone(), unknown_calls: vec![], exit_marker: exit_marker.clone(), local_fns, auto_requests: vec![],
+        loop_counter: 0, fname: fname.to_string(), drop_self: drop_self.clone(), unknown_calls: vec![], exit_marker: exit_marker.clone(), local_fns, auto_requests: vec![], inl: vec![], inline_stack: vec![], inline_failed: false, ret_count: 0, inlined: vec![],
     };
     // dyn Fn parameters that are callbacks are resolved by name through cfg.callbacks
     let av = sk.block(block);
@@ -1063,7 +1275,7 @@ pub fn skeleton_of(
     if !sk.errors.is_empty() {
         return Err(sk.errors.join("; "));
     }
-    Ok(SkelOut { auto_requests: sk.auto_requests, text: sk.out.join("\n"), closures: sk.pending_closures, events: sk.events, unknown_calls: sk.unknown_calls })
+    Ok(SkelOut { inlined: sk.inlined, auto_requests: sk.auto_requests, text: sk.out.join("\n"), closures: sk.pending_closures, events: sk.events, unknown_calls: sk.unknown_calls })
 }
 
 pub fn returns_result(src: &Src, sig: &syn::Signature) -> bool {
